@@ -110,6 +110,20 @@ class VCoeffVec:
         self.len_off += 1
 
 
+class VPointwise:
+    """simultaneous traversal of a (mutable) coefficient vector and another polynomial"""
+
+    def __init__(self, vec, other):
+        self.vec, self.other = vec, other
+
+
+class VCell:
+    """the generic coefficient of a mutable coefficient vector inside a pointwise loop"""
+
+    def __init__(self, vec):
+        self.vec = vec
+
+
 class VIter:
     def __init__(self, items):
         self.items = list(items)
@@ -501,6 +515,12 @@ class Interp:
                 r = as_poly(self.expr(e["r"], env))
                 base.poly = base.poly + (r if op == "+=" else -r) * base.pos(idx)
                 return UNIT
+        if op in ("+=", "-=") and e["l"]["k"] == "unary" and e["l"]["op"] == "*":
+            tgt = self.expr(e["l"]["e"], env)
+            if isinstance(tgt, VCell):
+                r = as_poly(self.expr(e["r"], env))
+                tgt.vec.poly = tgt.vec.poly + (r if op == "+=" else -r)
+                return UNIT
         if op in ("+=", "-=", "*="):
             cur = self.expr(e["l"], env)
             r = self.expr(e["r"], env)
@@ -657,6 +677,15 @@ class Interp:
             items = list(range(it.lo, it.hi))
         elif isinstance(it, (VIter, VArr)):
             items = it.items
+        elif isinstance(it, VPointwise):
+            # the body is executed once on the generic index: every coefficient is updated the same way, i.e. the
+            # update is an operation on the polynomials (`*c += *t * k`  ==  C(X) += T(X) * k)
+            env2 = dict_child(env)
+            self.bind(e["pat"], VTuple([VCell(it.vec), it.other]), env2)
+            if _has_kind(e["body"], ("if", "match", "return", "continue", "break")):
+                self.fail(e, "control flow inside a pointwise loop")
+            self.block(e["body"], env2)
+            return UNIT
         else:
             self.fail(e, "for over non-constant iterator")
         if len(items) > 4096:
@@ -835,6 +864,19 @@ class Interp:
             return v   # usize <-> u64 (-> u128) is lossless on the 64-bit target (stated assumption)
         self.fail(e, "cast of symbolic value")
 
+    def e_vec_repeat(self, e, env):
+        v = self.expr(e["e"], env)
+        n = self.expr(e["len"], env)
+        if isinstance(n, int) and n <= 4096:
+            return VArr([v] * n, "vec")
+        if isinstance(v, Poly) and v.is_zero():
+            # `vec![BlsScalar::zero(); n]` with symbolic n: the zero coefficient vector (of that length)
+            return VCoeffVec(C(0), 0, 0, known_len=False)
+        raise OutsideFragment("vec![x; n] with symbolic length")
+
+    def e_vec_list(self, e, env):
+        return VArr([self.expr(x, env) for x in e["elems"]], "vec")
+
     def e_macro(self, e, env):
         if e["path"] in ("debug_assert", "debug_assert_eq"):
             return UNIT
@@ -956,6 +998,8 @@ class Interp:
             return p + p
         if m in ("clone", "copied", "cloned", "into_iter", "iter", "iter_mut", "as_slice", "to_vec", "into") and not args:
             if m in ("iter", "into_iter", "iter_mut"):
+                if isinstance(recv, VCoeffVec):
+                    return recv
                 if isinstance(recv, (VArr, VIter)):
                     return VIter(recv.items)
                 if isinstance(recv, VRange):
@@ -969,6 +1013,14 @@ class Interp:
                 return VArr(recv.items, "vec")
             if m in ("copied", "cloned") and isinstance(recv, VIter):
                 return recv
+            return recv
+        if m == "zip" and isinstance(recv, VCoeffVec):
+            # `coeffs.iter_mut().zip(poly.iter())`: the pointwise traversal of two coefficient vectors
+            other = args[0]
+            if isinstance(other, VSymIter):
+                other = other.sym
+            return VPointwise(recv, other)
+        if m in ("iter", "iter_mut") and isinstance(recv, VCoeffVec):
             return recv
         if m == "zip":
             a = args[0]
@@ -1015,6 +1067,8 @@ class Interp:
             return VArr(recv.items, "vec")
         if m == "len" and isinstance(recv, (VArr, VIter)):
             return len(recv.items)
+        if m == "is_empty" and isinstance(recv, (VArr, VIter)):
+            return len(recv.items) == 0
         if m in PURE_GETTERS and not args and isinstance(recv, (Sym, VOpaque, Poly)):
             return VOpaque(m, [recv])
         if m in PURE_BINARY and len(args) == 1 and isinstance(recv, (Sym, VOpaque, Poly, int)):
